@@ -3,11 +3,12 @@ pointer casts and (b) the term domain of terms.py for bytes and little-endian by
 from .interp import Interp, State, concrete_path
 from .values import *
 from .terms import TS, TermError, IDENT
+from .wterms import WS
 from .facts import loc as nloc
 
 
 def is_term(v):
-    return v[0] in ('tb', 'bv')
+    return v[0] in ('tb', 'bv', 'tw')
 
 
 class TermInterp(Interp):
@@ -17,6 +18,8 @@ class TermInterp(Interp):
         self.concrete_loops = True
         self.name_intervals = False
         self.fail = []
+        self.ws = WS()
+        self.word_mode = False          # pack four byte leaves into a 32-bit word leaf (hash functions)
 
     def bad(self, node, what):
         self.fail.append((what, nloc(node) if isinstance(node, dict) else str(node)))
@@ -177,6 +180,8 @@ class TermInterp(Interp):
     def compose(self, vals):
         if len(vals) == 1:
             return vals[0]
+        if self.word_mode and len(vals) == 4 and all(v[0] == 'tb' and self.ts.node(v[1])[0] == 'v' for v in vals):
+            return ('tw', self.ws.leaf(tuple(self.ts.node(v[1])[1] for v in vals)))
         if all(v[0] == 'c' for v in vals):
             return C(sum((v[1] & 0xff) << (8 * i) for i, v in enumerate(vals)))
         ids = []
@@ -190,6 +195,8 @@ class TermInterp(Interp):
         return ('bv', tuple(ids))
 
     def split(self, val, n):
+        if val[0] == 'tw':
+            return [('opaque', 'word-byte')] * n
         if n == 1:
             if val[0] == 'bv':
                 return [('tb', val[1][0])]
@@ -225,6 +232,10 @@ class TermInterp(Interp):
         return None
 
     def tconv(self, v, tf, tt, node):
+        if v[0] == 'tw':
+            if tt and tt.get('bits') == 32:
+                return v
+            return self.bad(node, 'word term converted to %s' % (tt or {}).get('s'))
         bits = tt.get('bits') if tt else None
         if bits is None:
             return self.bad(node, 'term converted to non-integer')
@@ -258,9 +269,36 @@ class TermInterp(Interp):
         return None
 
     # ------------------------------------------------------------------ arithmetic
+    def wid(self, v):
+        if v[0] == 'tw':
+            return v[1]
+        if v[0] == 'c':
+            return self.ws.k(v[1])
+        return None
+
+    def twv(self, i):
+        return C(self.ws.kval(i)) if self.ws.is_k(i) else ('tw', i)
+
     def arith(self, s, op, a, b, t, n=None):
         if not (is_term(a) or is_term(b)):
             return Interp.arith(self, s, op, a, b, t, n)
+        if a[0] == 'tw' or b[0] == 'tw':
+            ws = self.ws
+            bits = (t or {}).get('bits', 32)
+            if bits != 32:
+                return self.bad(n, 'word term in %d-bit arithmetic' % bits)
+            ia, ib = self.wid(a), self.wid(b)
+            if ia is None or ib is None:
+                return self.bad(n, 'word term combined with %s' % (a[0] if ia is None else b[0]))
+            if op == '+':
+                return self.twv(ws.add([ia, ib]))
+            if op == '-':
+                return self.twv(ws.sub(ia, ib))
+            if op in ('&', '|', '^'):
+                return self.twv(ws.bitop(op, ia, ib))
+            if op in ('<<', '>>') and b[0] == 'c':
+                return self.twv(ws.shl(b[1], ia) if op == '<<' else ws.shr(b[1], ia))
+            return self.bad(n, 'word operation %s' % op)
         ts = self.ts
         bits = (t or {}).get('bits', 32)
         nb = max(1, bits // 8)
@@ -339,6 +377,8 @@ class TermInterp(Interp):
 
     def pack(self, ids):
         ts = self.ts
+        if self.word_mode and len(ids) == 4 and all(ts.node(i)[0] == 'v' for i in ids):
+            return ('tw', self.ws.leaf(tuple(ts.node(i)[1] for i in ids)))
         if all(ts.is_k(i) for i in ids):
             return C(sum(ts.kval(i) << (8 * k) for k, i in enumerate(ids)))
         if all(ts.is_k(i) and ts.kval(i) == 0 for i in ids[1:]):
@@ -384,7 +424,9 @@ class TermInterp(Interp):
         if n['op'] == '~':
             out = []
             for s, v in self.ev(n['e'], st, fr):
-                if is_term(v):
+                if v[0] == 'tw':
+                    out.append((s, self.twv(self.ws.bitnot(v[1]))))
+                elif is_term(v):
                     t = self.T(n)
                     nb = max(1, (t or {}).get('bits', 32) // 8)
                     bv = self.to_bv(v, nb)
